@@ -28,6 +28,19 @@ func init() {
 var c10Opts = everythingOpts{MaxAmtExp: 35, Gov: true, BankInj: true, NatFaults: true, Export: true, Crash: true, Sig: false, Blocks: [2]int{15, 45}}
 
 func c10RunSeed(seed uint64, tier string) *Outcome {
+	if seed%3 == 0 {
+		// the distributor-focused profile with dust-sized and huge inflows: many sub-distributor shapes per second,
+		// where rounding of shares (not conservation) decides whether BeginBlock survives
+		r := kernel.NewRng(seed)
+		exp := []int{2, 6, 35}[r.Intn(3)]
+		opts := distProfileOpts{Prop: "C10", Blocks: [2]int{10, 40}, MaxAmtExp: exp}
+		spec, cfg, err := buildDistWorld(r.Fork(10), opts)
+		if err != nil {
+			return &Outcome{InfraErr: err}
+		}
+		tr := &kernel.Trace{Profile: "C10", Seed: seed, Spec: *spec}
+		return c10Exec(tr, distSource(r.Fork(11), spec, cfg, opts))
+	}
 	tr, src, _, err := buildEverything(seed, "C10", c10Opts)
 	if err != nil {
 		return &Outcome{InfraErr: err}
